@@ -927,14 +927,19 @@ breaker('C11', 'finish-skips-creating', 'C11.R3', CONNPY, 'Connection.tpc_finish
 breaker('C11', 'tpc-abort-no-invalidate-creating', 'C11.R4', CONNPY,
         'Connection.tpc_abort',
         '''        self._invalidate_creating()
-        while self._added:''', '''        while self._added:''')
+        self._cache.invalidate(self._modified)
+        while self._added:''', '''        self._cache.invalidate(self._modified)
+        while self._added:''')
 breaker('C11', 'disown-only-jar', 'C11.R4', CONNPY,
         'Connection._invalidate_creating',
         '''                del o._p_jar
                 del o._p_oid''', '''                del o._p_jar''')
 breaker('C11', 'close-while-joined', 'C11.R5', CONNPY, 'Connection.close',
-        '''        if not self._needs_to_join:
-            # We're currently joined to a transaction.
+        '''        if not self._needs_to_join or (primary and any(
+                not connection._needs_to_join
+                for connection in self.connections.values())):
+            # We (or, for a primary connection, one of the connections that
+            # are closed with us) are currently joined to a transaction.
             raise ConnectionStateError("Cannot close a connection joined to "
                                        "a transaction")
 ''', '')
@@ -950,10 +955,10 @@ twin('C11', 'disown-order-swapped', CONNPY, 'Connection._invalidate_creating',
                 del o._p_oid''', '''                del o._p_oid
                 del o._p_jar''')
 twin('C11', 'abort-drain-helper', CONNPY, 'Connection.tpc_abort',
-     '''        self._cache.invalidate(self._modified)
-        self._invalidate_creating()''', '''        modified = self._modified
-        self._cache.invalidate(self._modified)
-        self._invalidate_creating()''')
+     '''        self._invalidate_creating()
+        self._cache.invalidate(self._modified)''', '''        modified = self._modified
+        self._invalidate_creating()
+        self._cache.invalidate(modified)''')
 
 # ---------------------------------------------------------------- C16
 breaker('C16', 'ds-pack-base', 'C16.R1', DSPY, 'DemoStorage.pack',
@@ -2693,3 +2698,35 @@ twin('C20', 'ds-newoid-two-tests', DSPY, 'DemoStorage.new_oid',
      '''                if oid in self._stored_oids:
                     pass
                 elif oid not in self._issued_oids:''')
+
+# ---- F71 .. F74 --------------------------------------------------------------
+breaker('C11', 'tpc-abort-invalidates-before-disowning', 'C11.R11', CONNPY,
+        'Connection.tpc_abort',
+        '''        self._invalidate_creating()
+        self._cache.invalidate(self._modified)''',
+        '''        self._cache.invalidate(self._modified)
+        self._invalidate_creating()''')
+breaker('C11', 'abort-invalidates-created-objects', 'C11.R11', CONNPY,
+        'Connection._abort',
+        '''            elif oid in self._creating or (
+                    self._savepoint_storage is not None and
+                    oid in self._savepoint_storage.creating):''',
+        '''            elif False:''')
+breaker('C11', 'close-checks-own-join-state-only', 'C11.R5', CONNPY,
+        'Connection.close',
+        '''        if not self._needs_to_join or (primary and any(
+                not connection._needs_to_join
+                for connection in self.connections.values())):''',
+        '''        if not self._needs_to_join:''')
+breaker('C06', 'undolog-entry-updated-with-extension', 'C06.R12', FSPY,
+        'UndoSearch._readnext',
+        '''        for k in e:
+            d.setdefault(k, e[k])''',
+        '''        d.update(e)''')
+breaker('C08', 'iterator-opens-file-without-lock', 'C08.R11', FSPY,
+        'FileStorage.iterator',
+        '''        with self._lock:
+            # (a pack renames the data file away and the packed file into
+            # place under this lock: don't open the name in between)
+            return FileIterator(self._file_name, start, stop)''',
+        '''        return FileIterator(self._file_name, start, stop)''')
